@@ -83,7 +83,7 @@ def main():
     cases = c02.cases(ck.tier)
     ck.bounds = dict(history='summary of a history: chains of 1..%d commits, a diamond merge and a merged two-commit side branch, listed in any order the issued rev-list flavour may print by contract (solver variables), plus one tagged commit unreachable from HEAD' % (3 if quick else 5),
                      tags='%d menus of 3-4 concrete tag names (valid / invalid / both-format spellings, numeric vs lexicographic order, pre-releases), every placement of every tag (absent / on each commit / on the unreachable commit) symbolic' % len(c02.MENUS),
-                     formats=['semver', 'pep440', 'auto'], facts='distance any number 0..99 (one family any u32), commit times 10 digits, branch absent / main / f/<any><any>, status text 0-2 symbolic chars',
+                     formats=['semver', 'pep440', 'auto'], facts='distance = the count the shape implies (one family: any u32), commit times 10 digits, branch absent / main / f/<any><any>, status text 0-2 symbolic chars',
                      configurations=len(cases))
     ck.outside = ['the git binary itself and the object database: `GitVcs::run_git_command` is replaced by a stub answering each sub-command from the symbolic summary according to git\'s documented contract (validated on random real repositories each run)',
                   'that the first validly tagged commit in topological order is a nearest one follows from the topo-order contract (argued in DESIGN, validated on real repositories with merges)',
